@@ -42,26 +42,27 @@ type rrComp struct{}
 
 // ---- URL table ----
 var urlTable = []string{
-	"http://a",             // 0  key 0
-	"http://u:p@a",         // 1  key 0 (userinfo)
-	"http://a?q=1",         // 2  key 0 (query)
-	"http://a/",            // 3  key 1 (path "/")
-	"https://a",            // 4  key 2 (scheme)
-	"http://b:8080/x",      // 5  key 3
-	"http://b:8080/x#frag", // 6  key 3 (fragment)
-	"http://b:8080/y",      // 7  key 4
-	"http://c",             // 8  key 5
-	"http://d/p?x=1&y=2",   // 9  key 6
-	"http://sa",            // 10 key 7 ("http"+"sa" reads like "https"+"a": a different scheme AND host than id 4)
-	"http://e:80",          // 11 key 8  one host on the two well-known ports and without a port: three servers
-	"http://e:443",         // 12 key 9
-	"http://e",             // 13 key 10
-	"http://evil/x",        // 14 key 11 (only written by scribblers / unknown removes)
-	"ftp://evil2:21/",      // 15 key 12
+	"http://a",                  // 0  key 0
+	"http://u:p@a",              // 1  key 0 (userinfo)
+	"http://a?q=1",              // 2  key 0 (query)
+	"http://a/",                 // 3  key 1 (path "/")
+	"https://a",                 // 4  key 2 (scheme)
+	"http://b:8080/x",           // 5  key 3
+	"http://b:8080/x#frag",      // 6  key 3 (fragment)
+	"http://b:8080/y",           // 7  key 4
+	"http://c",                  // 8  key 5
+	"http://d/p?x=1&y=2",        // 9  key 6
+	"http://sa",                 // 10 key 7 ("http"+"sa" reads like "https"+"a": a different scheme AND host than id 4)
+	"http://e:80",               // 11 key 8  one host on the two well-known ports and without a port: three servers
+	"http://e:443",              // 12 key 9
+	"http://e",                  // 13 key 10
+	"http://Backend-A:8080/api", // 14 key 11 a host spelt with capitals: the pool keeps it as given
+	"http://evil/x",             // 15 key 12 (only written by scribblers / unknown removes)
+	"ftp://evil2:21/",           // 16 key 13
 }
 
-const nServerURLs = 14 // ids < nServerURLs are used as servers
-const firstForeignURL = 14
+const nServerURLs = 15 // ids < nServerURLs are used as servers
+const firstForeignURL = 15
 
 type interner struct {
 	keys map[string]int64
